@@ -20,7 +20,16 @@ the projections) and batches of 1, 2 and 3 columns, and compared with a referenc
   float64 copy.
 * Samples / CUQIarray: a small reference state machine (parameters / function values / function values in vector
   form); every word of <= 3 conversions is applied and flags + stored values are compared after every step.
+* option facet: every STRING / enumerated option of a geometry class in every spelling the class accepts (Image2D
+  order C/F/c/f, StepExpansion projection names lower / UPPER / Capitalised, visual_only as bool / numpy bool / 0-1)
+  and every integer-like constructor argument (image shape, grid size, n_steps, num_modes, number of variables) as
+  python int, numpy integer, float-valued integer and (grids) tuple / list / integer-dtype array, numeric options
+  (decay_rate, normalizer) as float / int / numpy scalars.  Reference = the documented, case-insensitive meaning of
+  the option evaluated on the canonical python value.  A violation seen in such a cell is attributed to the MINIMAL
+  set of non-canonical option facets that still shows it (the sub-configurations are re-evaluated), so that one
+  defect gets one signature.
 """
+import itertools
 import math
 import os
 from fractions import Fraction
@@ -40,7 +49,11 @@ RULE = ("cells = full product of geometry configurations inside the bound (StepE
         "1,2,3 columns; every map, Samples and CUQIarray conversion is repeated on integer-valued inputs held as "
         "{int64, int32, float32, strided/Fortran-ordered, list} against the float64 result; Samples and CUQIarray "
         "are driven through EVERY word of <= 3 conversions over {funvals, vector, parameters} (plus burnthin(0,1), "
-        "burnthin(1,2) after the first funvals) with a reference state machine; a cell is non-trivial when the "
+        "burnthin(1,2) after the first funvals) with a reference state machine; OPTION facet: additional cells give "
+        "every string / enumerated option in every accepted spelling and every integer-like or numeric constructor "
+        "argument in every accepted representation (full product of the option facets of a class inside a smaller "
+        "size bound) and run the same relations against the reference of the canonical value; violations of such a "
+        "cell are attributed to the minimal failing subset of non-canonical facets; a cell is non-trivial when the "
         "geometry was constructed and at least one map was evaluated on the whole basis")
 BOUND = {
     "quick": "StepExpansion N=2..12, n_steps=1..N, offsets {0,0.1,1,-0.3,1e3}, lengths {1,0.7,3,0.1,pi}, builders "
@@ -52,9 +65,19 @@ BOUND = {
              "samples, conversion words of length <= 3 on 3 samples.  For StepExpansion the representation facet, the "
              "direct vector-map basis and CUQIarray words of length 3 run on 3 canonical grids per (N, n_steps) (integer "
              "grid; offset 0.1 / length 0.7 with both builders) x all 3 projections - the other 48 offset/length grids "
-             "keep the float64 maps, batches and Samples words",
+             "keep the float64 maps, batches and Samples words.  OPTION facet (full products): Image2D {1..4}^2 x order "
+             "{C,F,c,f} x visual_only x shape as {tuple of int, tuple of np.int64, tuple of float, list} + the same "
+             "x visual_only as {np.bool_, 0/1}; StepExpansion N=2..6, n_steps=1..N, grid {int, np.int64, (N,), "
+             "(np.int64,), int-dtype array, list, float} x n_steps {int, np.int64, float} x projection spelling {lower, "
+             "UPPER, Capitalised} (all 3 projections); KLExpansion N=1..4, num_modes {None,1..N+1} as {int, np.int64, "
+             "float} x grid {array, int, np.int64, list} x (decay_rate=2, normalizer=12) as {float, int, np.float64, "
+             "np.int64}; Continuous2D {1..4}^2 x grid {np.int64 pair, one-element tuples, list of two, int-dtype "
+             "arrays, int+array mixed, float pair}; Discrete 1..6 as {np.int64, float, list of np.str_}; Continuous1D / "
+             "default 1D 1..6 as {np.int64, (np.int64,), int-dtype array, float}; default 2D {1..3}^2 x {np.int64, "
+             "float} x visual_only; Mapped over images of order c / f",
     "thorough": "same with StepExpansion N=2..24, KLExpansion N=1..16, Continuous2D/Image2D {1..5}^2, 3 dyadic "
-                "vectors per cell (representations, words and batch sizes as in quick)",
+                "vectors per cell (representations, words and batch sizes as in quick); OPTION facet with StepExpansion "
+                "N=2..10, KLExpansion N=1..8, images / 2-D grids {1..5}^2",
 }
 ASSUMPTIONS = [
     "a grid node that coincides (in rational arithmetic) with an interior step boundary is accepted in the lower "
@@ -72,6 +95,15 @@ ASSUMPTIONS = [
     "an exception raised by library code on admissible input outside the allowed refusals is a verdict "
     "(signature ...|raises|...), exceptions of harness code are harness errors",
     "fractions / numpy reshape with explicit index loops are the trusted base of the reference",
+    "option facet: spellings / representations that the classes document or explicitly test for (order 'C'/'F' in "
+    "either case - the option is forwarded to numpy, which reads it case-insensitively -, projection names in any "
+    "case, python and numpy integers, bool / numpy bool / 0-1 truth values, int / float / numpy numeric options, "
+    "tuple-with-one-int / list / ndarray grids) must be accepted and mean what the canonical value means; "
+    "float-valued integers and a list in place of the documented shape tuple are OPTIONAL representations: the "
+    "library may refuse them anywhere (any raise of library code = refusal; a geometry reporting non-integer "
+    "dimensions is not explored further), but every value it does return must equal the reference",
+    "the function values of every geometry in the bound are arrays: fun_is_array must say so once par2fun has "
+    "returned an array of the reported fun_shape (Samples.funvals relies on it)",
 ]
 
 OFFSETS = [0.0, 0.1, 1.0, -0.3, 1e3]
@@ -119,6 +151,120 @@ def cells(tier, seed):
     for r in range(1, 4):
         for c in range(1, 4):
             yield {"fam": "default", "kind": "default2d", "r": r, "c": c, "cat": k, "nv": nv}
+    # ---- OPTION facet: spellings of string / enumerated options, representations of integer-like and numeric
+    # constructor arguments (keys absent = canonical value; full product of the option facets of each class) ----
+    for n1 in range(1, smax + 1):
+        for n2 in range(1, smax + 1):
+            for order in ("C", "F"):
+                for vo in (False, True):
+                    base = {"fam": "img", "r": n1, "c": n2, "order": order, "vo": vo, "cat": k, "nv": nv}
+                    for ocase in ("upper", "lower"):
+                        for srep in ("int", "np.int64", "float", "list"):
+                            if (ocase, srep) != ("upper", "int"):
+                                yield _with(base, ocase=ocase, srep=srep)
+                        for vrep in ("np.bool_", "int"):
+                            yield _with(base, ocase=ocase, vrep=vrep)
+            for g2 in ("np.int64", "tuple1", "list2", "intarray", "mixed", "float"):
+                yield {"fam": "c2d", "n1": n1, "n2": n2, "grid": "int", "g2rep": g2, "cat": k, "nv": nv}
+    for N in range(2, (6 if tier == "quick" else 10) + 1):
+        for n in range(1, N + 1):
+            base = {"fam": "step", "N": N, "n": n, "x0": 0.0, "L": float(N - 1), "b": "int", "cat": k, "nv": nv}
+            for grep in ("int", "np.int64", "tuple", "np.tuple", "intarray", "list", "float"):
+                for nrep in ("int", "np.int64", "float"):
+                    for pcase in ("lower", "upper", "capital"):
+                        if (grep, nrep, pcase) != ("int", "int", "lower"):
+                            yield _with(base, grep=grep, nrep=nrep, pcase=pcase)
+    for N in range(1, (4 if tier == "quick" else 8) + 1):
+        for m in [None] + list(range(1, N + 2)):
+            base = {"fam": "kl", "N": N, "m": m, "decay": 2.0, "tau": 12.0, "cat": k, "nv": nv}
+            for grep in ("array", "int", "np.int64", "list"):
+                for mrep in (("int",) if m is None else ("int", "np.int64", "float")):
+                    for numrep in ("float", "int", "np.float64", "np.int64"):
+                        yield _with(base, grep=grep, mrep=mrep, numrep=numrep)
+    for n in range(1, 7):
+        for vrep in ("np.int64", "float"):
+            yield {"fam": "disc", "n": n, "named": False, "vrep": vrep, "cat": k, "nv": nv}
+        yield {"fam": "disc", "n": n, "named": True, "vrep": "np.str_", "cat": k, "nv": nv}
+        for kind in ("default1d", "c1d-int"):
+            for irep in ("np.int64", "np.tuple", "intarray", "float"):
+                yield {"fam": "default", "kind": kind, "n": n, "irep": irep, "cat": k, "nv": nv}
+    for r in range(1, 4):
+        for c in range(1, 4):
+            for vo in (False, True):
+                for srep in ("int", "np.int64", "float"):
+                    if (vo, srep) != (False, "int"):
+                        yield {"fam": "default", "kind": "default2d", "r": r, "c": c, "vo": vo, "srep": srep,
+                               "cat": k, "nv": nv}
+    for base in ("imgc", "imgf"):
+        for mp in ("affine", "quarter", "exp"):
+            yield {"fam": "mapped", "base": base, "map": mp, "cat": k, "nv": nv}
+
+
+def _with(base, **kw):
+    d = dict(base)
+    d.update(kw)
+    return d
+
+
+# ----------------------------------------------------------------------------------------
+# option facet: representations of one and the same option value
+# ----------------------------------------------------------------------------------------
+# family -> {facet key: canonical representation} (a cell without the key uses the canonical one)
+OPT_CANON = {
+    "img": {"ocase": "upper", "srep": "int", "vrep": "bool"},
+    "step": {"grep": "int", "nrep": "int", "pcase": "lower"},
+    "kl": {"grep": "array", "mrep": "int", "numrep": "float"},
+    "c2d": {"g2rep": "int"},
+    "disc": {"vrep": "py"},
+    "default": {"irep": "int", "srep": "int"},
+    "mapped": {},
+}
+IREP = {"int": int, "np.int64": np.int64, "float": float}
+NUMREP = {"float": float, "int": int, "np.float64": np.float64, "np.int64": np.int64}
+
+
+def _opt(cell, key):
+    return cell.get(key, OPT_CANON[cell["fam"]][key])
+
+
+def _opts(cell):
+    """The non-canonical option facets of a cell: {key: representation}."""
+    return {key: cell[key] for key, canon in OPT_CANON[cell["fam"]].items() if key in cell and cell[key] != canon}
+
+
+def _lenient(cell):
+    """True when the cell hands over an OPTIONAL representation (float-valued integer, list in place of a tuple)."""
+    o = _opts(cell)
+    return any(v == "float" for v in o.values()) or o.get("srep") == "list"
+
+
+def _case(name, how):
+    return {"lower": name.lower(), "upper": name.upper(), "capital": name.capitalize()}[how]
+
+
+def _shape_rep(shape, rep):
+    if rep == "list":
+        return [int(v) for v in shape]
+    return tuple(IREP[rep](v) for v in shape)
+
+
+def _bool_rep(v, rep):
+    return {"bool": bool, "np.bool_": np.bool_, "int": int}[rep](v)
+
+
+def _grid_rep(N, rep):
+    """An N-node default grid (nodes 0..N-1) in the given representation."""
+    if rep in IREP:
+        return IREP[rep](N)
+    if rep == "tuple":
+        return (int(N),)
+    if rep == "np.tuple":
+        return (np.int64(N),)
+    if rep == "intarray":
+        return np.arange(N, dtype=np.int64)
+    if rep == "list":
+        return list(range(N))
+    raise ValueError(rep)
 
 
 # ----------------------------------------------------------------------------------------
@@ -126,6 +272,11 @@ def cells(tier, seed):
 # ----------------------------------------------------------------------------------------
 def _arr(x):
     return np.asarray(x, dtype=float)
+
+
+def _is_index(v):
+    """v is an integer (python or numpy), not a bool-free float / other object."""
+    return isinstance(v, (int, np.integer)) and not isinstance(v, (bool, np.bool_))
 
 
 def _sq(shape):
@@ -177,20 +328,35 @@ def _shp(x):
     return None if a is None else a.shape
 
 
+RAISE_KINDS = ("raises", "refused", "maps-raise-after-new-grid")
+
+
 class Ctx:
     """Per-cell bookkeeping: component name, facet string, and de-duplicated failures."""
 
-    def __init__(self, res, comp, facet=""):
+    def __init__(self, res, comp, facet="", lenient=False):
         self.res, self.comp, self.facet = res, comp, facet
         self._seen = set()
         self.map_broken = False   # a map-level relation failed: derived relations are not flagged again
+        self.lenient = lenient    # OPTIONAL representation of an option: a raise of the library is a refusal
+        self.not_array = False    # fun_is_array denies that the function values are arrays (reported once)
 
-    def fail(self, op, what, msg, **detail):
-        sig = "C13|%s|%s|%s" % (self.comp, op, what if not self.facet else "%s,%s" % (what, self.facet))
-        if what == "shape-singleton-squeezed" or (what.split(",")[0] == "raises" and getattr(self, "squeezed", False)):
+    def fail(self, op, what, msg, nofacet=False, **detail):
+        head = what.split(",")[0]
+        if self.lenient and head in RAISE_KINDS:
+            self.res.refused += 1
+            self.res.count("optional-representation-refused")
+            self.res.outcomes.add("%s:optional-representation-refused:%s" % (self.comp, op))
+            return
+        sig = "C13|%s|%s|%s" % (self.comp, op, what if (nofacet or not self.facet) else "%s,%s" % (what, self.facet))
+        if what == "shape-singleton-squeezed" or (head == "raises" and getattr(self, "squeezed", False)):
             # one defect (maps squeeze away genuine length-1 axes) whatever map shows it and whatever downstream
             # conversion then refuses the wrongly shaped array
             sig = "C13|%s|singleton-axis|squeezed" % self.comp
+            msg = "[%s] %s" % (op, msg)
+        elif self.not_array and op.startswith("Samples.") and head == "flags":
+            # consequence of the wrong fun_is_array flag (function values kept as a list, is_vec False)
+            sig = "C13|%s|fun_is_array|reports-non-array" % self.comp
             msg = "[%s] %s" % (op, msg)
         if sig in self._seen:
             return
@@ -313,6 +479,18 @@ def generic(cx, g, k, nv, inverse=True, ref_par2fun=None, has_vec=True, samples=
         return None
     pd, fshape, fdim, pshape = dims
     cx.res.evaluations += 1
+    if not all(_is_index(v) for v in (pd, fdim) + fshape + pshape):
+        if cx.lenient:
+            # an optional representation (float-valued integer) that leaks into the reported dimensions: the library
+            # never promised it - not explored further
+            res.refused += 1
+            res.count("optional-representation-nonint-dims")
+            res.outcomes.add("%s:optional-representation-nonint-dims" % cx.comp)
+            return None
+        cx.fail("dims", "not-integers", "par_dim %r / par_shape %r / fun_dim %r / fun_shape %r are not all integers"
+                % (pd, pshape, fdim, fshape))
+        return None
+    pd, fdim, fshape, pshape = int(pd), int(fdim), tuple(int(v) for v in fshape), tuple(int(v) for v in pshape)
     if pshape != (pd,) or fdim != _prod(fshape):
         cx.fail("dims", "inconsistent", "par_shape %s / par_dim %s / fun_shape %s / fun_dim %s are inconsistent"
                 % (pshape, pd, fshape, fdim))
@@ -331,6 +509,18 @@ def generic(cx, g, k, nv, inverse=True, ref_par2fun=None, has_vec=True, samples=
         cx.shape("par2fun", f.shape, fshape)
         if f.size != fdim:
             return None
+        if not F and f.shape == fshape:
+            # the maps produce arrays of the reported shape: the geometry must say so (Samples.funvals relies on it)
+            ok, flag = _call(res, lambda: g.fun_is_array)
+            res.evaluations += 1
+            if not ok:
+                cx.fail("fun_is_array", "raises", "fun_is_array raised: %r" % (flag,))
+            elif not flag:
+                cx.not_array = True
+                cx.fail("fun_is_array", "reports-non-array", "fun_is_array is %r although par2fun returns an ndarray of the "
+                        "reported fun_shape %r (entries of type %s): Samples.funvals then keeps the function values as a "
+                        "list flagged is_vec=False" % (flag, g.fun_shape, sorted(set(type(v).__name__ for v in g.fun_shape))),
+                        nofacet=True)
         if ref_par2fun is not None:
             r = ref_par2fun(p)
             res.evaluations += 1
@@ -414,6 +604,10 @@ def _vec_check(cx, g, k, nv, F, pd, fshape, ref_f2v, ref_v2f, full=True):
         return None
     vshape, vdim = vs
     res.evaluations += 1
+    if not all(_is_index(v) for v in (vdim,) + vshape):
+        cx.fail("dims", "funvec-not-integers", "funvec_dim %r / funvec_shape %r are not integers" % (vdim, vshape))
+        return None
+    vshape, vdim = tuple(int(v) for v in vshape), int(vdim)
     if vdim != _prod(vshape) or len(vshape) != 1:
         cx.fail("dims", "funvec", "funvec_dim %s != prod(funvec_shape %s) / not one-dimensional" % (vdim, vshape))
         return None
@@ -980,13 +1174,21 @@ def eval_step(cell, res):
     ideal, onb = step_oracle(N, n)
     assert sorted(set(ideal)) == list(range(n)), "harness self-check: documented partition has an empty step"
     grid = _grid(cell)
+    # option facet: representation of the grid size / of n_steps, spelling of the projection name (the canonical
+    # configuration - python ints, lower case - is the integer-grid cell of the main product)
+    opt = bool(_opts(cell))
+    grep, nrep, pcase = _opt(cell, "grep"), _opt(cell, "nrep"), _opt(cell, "pcase")
+    if opt:
+        grid = _grid_rep(N, grep)
+        res.state("step-opt:%s/%s/%s" % (grep, nrep, pcase))
     # canonical grids carrying the representation / vector-form / long-word facets (for all three projections)
-    full = cell["b"] == "int" or (cell["x0"], cell["L"]) == (0.1, 0.7)
+    full = (cell["b"] == "int" or (cell["x0"], cell["L"]) == (0.1, 0.7)) and not opt
     first = True
     for proj in PROJS:
-        cx = Ctx(res, "StepExpansion")
+        cx = Ctx(res, "StepExpansion", lenient=_lenient(cell))
+        res.transitions += 1
         try:
-            g = StepExpansion(grid, n_steps=n, fun2par_projection=proj)
+            g = StepExpansion(grid, n_steps=IREP[nrep](n), fun2par_projection=_case(proj, pcase))
         except Exception as e:
             res.refused += 1
             cx.fail("construct", "refused", "admissible regular grid (N=%d >= n_steps=%d) refused: %r" % (N, n, e))
@@ -1135,10 +1337,19 @@ def kl_matrix(N, m, decay, tau):
 def eval_kl(cell, res):
     from cuqi.geometry import KLExpansion
     N, m, decay, tau, k, nv = cell["N"], cell["m"], cell["decay"], cell["tau"], cell["cat"], cell["nv"]
-    cx = Ctx(res, "KLExpansion")
+    cx = Ctx(res, "KLExpansion", lenient=_lenient(cell))
     grid = np.linspace(0, 1, N) if N > 1 else np.array([0.5])
+    # option facet: representation of the grid (the series does not depend on the node positions), of num_modes and
+    # of the numeric options; decay / tau / m stay the python values used by the reference
+    grep, mrep, numrep = _opt(cell, "grep"), _opt(cell, "mrep"), _opt(cell, "numrep")
+    if grep != "array":
+        grid = _grid_rep(N, grep)
+    if "grep" in cell:
+        res.state("kl-opt:%s/%s/%s" % (grep, mrep, numrep))
+    res.transitions += 1
     try:
-        g = KLExpansion(grid, decay_rate=decay, normalizer=tau, num_modes=m)
+        g = KLExpansion(grid, decay_rate=NUMREP[numrep](decay), normalizer=NUMREP[numrep](tau),
+                        num_modes=None if m is None else IREP[mrep](m))
     except Exception as e:
         res.refused += 1
         cx.fail("construct", "refused", "KLExpansion refused a documented configuration: %r" % (e,))
@@ -1208,8 +1419,14 @@ def eval_kl(cell, res):
 def eval_c2d(cell, res):
     from cuqi.geometry import Continuous2D
     n1, n2, k, nv = cell["n1"], cell["n2"], cell["cat"], cell["nv"]
-    cx = Ctx(res, "Continuous2D")
+    cx = Ctx(res, "Continuous2D", lenient=_lenient(cell))
     grid = (n1, n2) if cell["grid"] == "int" else (0.1 + 0.7 * np.arange(n1), list(-0.3 + 0.25 * np.arange(n2)))
+    g2 = _opt(cell, "g2rep")          # option facet: representation of the pair of grid sizes
+    if g2 != "int":
+        res.state("c2d-opt:" + g2)
+        grid = {"np.int64": (np.int64(n1), np.int64(n2)), "tuple1": ((n1,), (np.int64(n2),)), "list2": [n1, n2],
+                "intarray": (np.arange(n1, dtype=np.int64), np.arange(n2, dtype=np.int32)),
+                "mixed": (n1, np.arange(n2, dtype=float)), "float": (float(n1), float(n2))}[g2]
     g = _construct(cx, Continuous2D, grid)
     if g is None:
         return
@@ -1257,13 +1474,21 @@ def _construct(cx, cls, *a, **kw):
 def eval_img(cell, res):
     from cuqi.geometry import Image2D
     r, c, order, vo, k, nv = cell["r"], cell["c"], cell["order"], cell["vo"], cell["cat"], cell["nv"]
-    cx = Ctx(res, "Image2D", "order=%s,visual_only=%s" % (order, vo))
-    g = _construct(cx, Image2D, (r, c), order=order, visual_only=vo)
+    # option facet: spelling of the order string, representation of the shape entries and of the visual_only flag;
+    # `order` / `vo` stay the documented (case-insensitive / truth-value) MEANING used by the reference
+    ocase, srep, vrep = _opt(cell, "ocase"), _opt(cell, "srep"), _opt(cell, "vrep")
+    cx = Ctx(res, "Image2D", "order=%s,visual_only=%s" % (order, vo), lenient=_lenient(cell))
+    g = _construct(cx, Image2D, _shape_rep((r, c), srep), order=_case(order, ocase), visual_only=_bool_rep(vo, vrep))
     if g is None:
         return
     res.state("img")
-    cx.shape("par_shape", g.par_shape, (r * c,))
-    cx.shape("fun_shape", g.fun_shape, (r * c,) if vo else (r, c))
+    res.state("img-opt:%s/%s/%s" % (ocase, srep, vrep))
+    ok, shp = _call(res, lambda: (tuple(g.par_shape), tuple(g.fun_shape)))
+    if not ok:
+        cx.fail("dims", "raises", "the geometry cannot report its shapes: %r" % (shp,))
+        return
+    cx.shape("par_shape", shp[0], (r * c,))
+    cx.shape("fun_shape", shp[1], (r * c,) if vo else (r, c))
 
     def ref(p):
         if vo:
@@ -1276,14 +1501,22 @@ def eval_img(cell, res):
     F = generic(cx, g, k, nv, inverse=True, ref_par2fun=ref, has_vec=True, ref_fun2vec=_img_f2v(r, c, order, vo))
     if F is not None:
         _bijection(cx, F[:r * c], r * c)
-    res.sample = {"fun_shape": g.fun_shape, "order": order}
+    res.sample = {"fun_shape": g.fun_shape, "order": _case(order, ocase)}
 
 
 def eval_disc(cell, res):
     from cuqi.geometry import Discrete
     n, k, nv = cell["n"], cell["cat"], cell["nv"]
-    cx = Ctx(res, "Discrete")
-    g = _construct(cx, Discrete, ["name%d" % i for i in range(n)] if cell["named"] else n)
+    cx = Ctx(res, "Discrete", lenient=_lenient(cell))
+    vrep = _opt(cell, "vrep")         # option facet: representation of the number / names of the variables
+    if vrep != "py":
+        res.state("disc-opt:" + vrep)
+    arg = ["name%d" % i for i in range(n)] if cell["named"] else n
+    if vrep == "np.str_":
+        arg = [np.str_(v) for v in arg]
+    elif vrep in IREP:
+        arg = IREP[vrep](n)
+    g = _construct(cx, Discrete, arg)
     if g is None:
         return
     res.state("disc")
@@ -1308,6 +1541,10 @@ def _mapped_base(name):
         return Image2D((3, 2), order="C"), None
     if name == "imgF":
         return Image2D((2, 3), order="F"), None
+    if name == "imgc":
+        return Image2D((3, 2), order="c"), None
+    if name == "imgf":
+        return Image2D((2, 3), order="f"), None
     if name == "step":
         return StepExpansion(np.linspace(0, 1, 7), n_steps=2), [0, 0, 0, 0, 1, 1, 1]
     if name == "kl":
@@ -1339,7 +1576,8 @@ def eval_mapped(cell, res):
         return fmap(np.asarray(base2.par2fun(np.array(p, float)), float))
     cx.shape("par_shape", g.par_shape, base2.par_shape)
     has_vec = cell["base"] != "c2d"
-    f2v = {"imgC": _img_f2v(3, 2, "C", False), "imgF": _img_f2v(2, 3, "F", False)}.get(cell["base"])
+    f2v = {"imgC": _img_f2v(3, 2, "C", False), "imgF": _img_f2v(2, 3, "F", False),
+           "imgc": _img_f2v(3, 2, "C", False), "imgf": _img_f2v(2, 3, "F", False)}.get(cell["base"])
     generic(cx, g, k, nv, inverse=True, ref_par2fun=ref, has_vec=has_vec, ref_fun2vec=f2v)
     # without an inverse map fun2par must refuse, not return something
     g0 = _construct(cx, MappedGeometry, base, map=fmap)
@@ -1358,25 +1596,35 @@ def eval_default(cell, res):
     k, nv, kind = cell["cat"], cell["nv"], cell["kind"]
     if kind == "default2d":
         r, c = cell["r"], cell["c"]
-        cx = Ctx(res, "_DefaultGeometry2D")
-        g = _construct(cx, _DefaultGeometry2D, (r, c))
+        vo, srep = cell.get("vo", False), _opt(cell, "srep")
+        cx = Ctx(res, "_DefaultGeometry2D", "visual_only=True" if vo else "", lenient=_lenient(cell))
+        if "vo" in cell:
+            g = _construct(cx, _DefaultGeometry2D, _shape_rep((r, c), srep), visual_only=vo)
+            res.state("default2d-opt:%s/%s" % (srep, vo))
+        else:
+            g = _construct(cx, _DefaultGeometry2D, (r, c))
         if g is None:
             return
         res.state("default2d")
-        cx.shape("fun_shape", g.fun_shape, (r, c))
+        cx.shape("fun_shape", g.fun_shape, (r * c,) if vo else (r, c))
 
         def ref(p):
+            if vo:
+                return np.array(p, float)
             return np.array([[p[a * c + b] for b in range(c)] for a in range(r)], float)
-        generic(cx, g, k, nv, inverse=True, ref_par2fun=ref, ref_fun2vec=_img_f2v(r, c, "C", False))
+        generic(cx, g, k, nv, inverse=True, ref_par2fun=ref, ref_fun2vec=_img_f2v(r, c, "C", vo))
         return
     n = cell["n"]
     ident = lambda p: np.array(p, float)  # noqa
+    irep = _opt(cell, "irep")          # option facet: representation of the grid size
+    if irep != "int":
+        res.state("default-opt:" + irep)
     if kind == "default1d":
-        cx = Ctx(res, "_DefaultGeometry1D")
-        g = _construct(cx, _DefaultGeometry1D, n)
+        cx = Ctx(res, "_DefaultGeometry1D", lenient=_lenient(cell))
+        g = _construct(cx, _DefaultGeometry1D, _grid_rep(n, irep))
     elif kind == "c1d-int":
-        cx = Ctx(res, "Continuous1D")
-        g = _construct(cx, Continuous1D, n)
+        cx = Ctx(res, "Continuous1D", lenient=_lenient(cell))
+        g = _construct(cx, Continuous1D, _grid_rep(n, irep))
     elif kind == "c1d-tuple":
         cx = Ctx(res, "Continuous1D")
         g = _construct(cx, Continuous1D, (n,))
@@ -1437,8 +1685,7 @@ def _library_frame(tb):
     return None
 
 
-def eval_cell(cell):
-    import cuqi  # noqa: imports the tree selected by VERIF_REPO
+def _run(cell):
     res = CellResult(cell)
     try:
         FAMS[cell["fam"]](cell, res)
@@ -1449,8 +1696,50 @@ def eval_cell(cell):
         where = _library_frame(e.__traceback__)
         if where is None:
             raise
-        res.fail("C13|%s|raises|in=%s" % (COMP[cell["fam"]], where),
-                 "the library raised on admissible input where the statement allows no refusal: %r" % (e,))
+        if _lenient(cell):
+            res.refused += 1          # optional representation of an option: any raise of the library is a refusal
+            res.count("optional-representation-refused")
+        else:
+            res.fail("C13|%s|raises|in=%s" % (COMP[cell["fam"]], where),
+                     "the library raised on admissible input where the statement allows no refusal: %r" % (e,))
+    return res
+
+
+OPT_NAME = {"ocase": "order_spelling", "srep": "shape_as", "vrep": "flag_as", "grep": "grid_as", "nrep": "n_steps_as",
+            "pcase": "projection_spelling", "mrep": "num_modes_as", "numrep": "numbers_as", "g2rep": "grid_as",
+            "irep": "grid_as"}
+
+
+def _attribute(cell, res):
+    """Violations of a cell with non-canonical option facets are signed with the MINIMAL subset of these facets that
+    still shows them: the sub-configurations (subsets in order of size, the canonical configuration first) are
+    re-evaluated on scratch results.  A violation that the canonical configuration shows as well keeps the canonical
+    signature; one defect tied to one facet gets one signature whatever the other facets are."""
+    opts = _opts(cell)
+    if not opts or not res.failures:
+        return
+    keys = sorted(opts)
+    want = set(f["signature"] for f in res.failures)
+    found = {}
+    for size in range(len(keys)):
+        for sub in itertools.combinations(keys, size):
+            if all(sig in found for sig in want):
+                break
+            c2 = {kk: v for kk, v in cell.items() if kk not in keys or kk in sub}
+            for f in _run(c2).failures:
+                if f["signature"] in want and f["signature"] not in found:
+                    found[f["signature"]] = sub
+    for f in res.failures:
+        sub = found.get(f["signature"], tuple(keys))
+        if sub:
+            f["signature"] += "," + ",".join("%s=%s" % (OPT_NAME[kk], opts[kk]) for kk in sub)
+            res.count("violation-attributed-to-option-facet")
+
+
+def eval_cell(cell):
+    import cuqi  # noqa: imports the tree selected by VERIF_REPO
+    res = _run(cell)
+    _attribute(cell, res)
     if res.transitions == 0:
         res.nontrivial = False
     return res
